@@ -1,7 +1,7 @@
 """C16 - Stop completes, leaves nothing running, and reload keeps the swarm data."""
 PROP = {
     "glue": "G16", "chk": "chk16", "explain": "explain16",
-    "gotags": [],
+    "gotags": ["shim_httplisten"], "listen_rewrite": True,
     "n": {"quick": 50, "thorough": 300},
     "driver_timeout": {"quick": 300, "thorough": 1500},
     "rule": "cases = deterministic scenarios on the REAL code, scheduled with gates (hooks blocking on channels), never with sleeps: "
@@ -16,7 +16,8 @@ PROP = {
              "10-13": "gated hook: 10+2*frontend+mode (frontend 0 UDP / 1 HTTP; mode 0 pre-hook gated, 1 post-response hook gated)",
              "20/21": "NewFrontend;Stop race UDP/HTTP", "30/31": "requests then Stop, goroutines UDP/HTTP", "40-43": "reload history with 0/1/2/3+ reloads",
              "50/51": "Stop(everything) with a pending post-response hook, UDP/HTTP",
-             "60-62": "middleware.Logic.Stop: no JWT hook / JWT refresh idle / JWT refresh inside a fetch that never completes"},
+             "60-62": "middleware.Logic.Stop: no JWT hook / JWT refresh idle / JWT refresh inside a fetch that never completes",
+             "70-72": "HTTP Frontend.Stop with listener Close errors injected: both servers / http only / https only"},
     "trivial_tags": [], "min_tags": 10,
     "reasons": {"1": "Stop's result was delivered while a post-response hook (AfterAnnounce/AfterScrape) of an accepted request was still in flight",
                 "2": "after Stop completed the listener was still open (the port accepted a connection / was still bound)",
